@@ -106,6 +106,7 @@ func (ex *Exec) step(fr *Frame, st *State, ins ssa.Instruction) {
 		fr.env[x] = ex.freshVal(st, x.Type(), "index")
 	case *ssa.MakeInterface:
 		iv := &IfaceV{Dyn: x.X.Type(), V: ex.val(fr, st, x.X)}
+		ex.guardedEscape(fr, st, iv.V, "converted to "+shortType(x.Type()), x.Pos())
 		if c, ok := x.X.(*ssa.Const); ok && c.Value != nil && implementsError(x.X.Type()) {
 			// a constant of an error type (syscall.ESRCH): one distinct constant per value
 			iv.Sym = errConstSym(x.X.Type(), c.Value.ExactString())
